@@ -58,8 +58,9 @@ CHECK_DEADLOCK FALSE
 '''
 
 
-def make_trace(tid, pi, lines, amb=False, overlap=False):
-    return {'id': tid, 'pi': pi, 'amb': bool(amb), 'overlap': bool(overlap), 'lines': to_json(lines)}
+def make_trace(tid, pi, lines, amb=False, overlap=False, poolmissing=False):
+    return {'id': tid, 'pi': pi, 'amb': bool(amb), 'overlap': bool(overlap), 'poolmissing': bool(poolmissing),
+            'lines': to_json(lines)}
 
 
 def run_batch(spec, payload, n_expected, timeout=3600):
